@@ -47,11 +47,14 @@ class SecondOpinion(object):
             self.docs.append((root, nsmap, defs))
         self.memo = {}
         self.decls = {}          # (ns, local) -> list of (doc index, element node)
+        self.any_decls = []
         for di, (root, nsmap, defs) in enumerate(self.docs):
             for el in root.getElementsByTagNameNS(tg.RNGNS, 'element'):
                 for q in self.nc_names(di, el)[0]:
                     if q != '*':
                         self.decls.setdefault(q, []).append((di, el))
+                    else:
+                        self.any_decls.append((di, el))       # <anyName/>: the islands
 
     def qn(self, di, s):
         p, l = s.strip().split(':', 1)
@@ -125,6 +128,8 @@ class SecondOpinion(object):
     def element(self, q):
         ds = self.decls.get(q, [])
         if not ds:
+            ds = self.any_decls      # a name no declaration lists is judged by the <anyName/> declarations
+        if not ds:
             return None
         rs = [self.seq(di, self.nc_names(di, el)[1]) for di, el in ds]
         must = set(rs[0][3])
@@ -180,6 +185,7 @@ def excepted(V, kind, e, x=''):
 def check_second_opinion(chk, V):
     G = V.G
     so = SecondOpinion(G)
+    V.so = so
     bad = []
     for i in range(V.n):
         r = so.element(G.elems.items[i])
@@ -188,9 +194,12 @@ def check_second_opinion(chk, V):
             if s['elem']:
                 bad.append(V.EN[i] + ': Lean says declared')
             continue
+        if s['elem'] != (G.elems.items[i] in so.decls):
+            bad.append(V.EN[i] + ': declared-by-name differs')
+            continue
         conv_e = lambda st: set(-1 if q == '*' else G.elems.ids[q] for q in st)
         conv_a = lambda st: set(-1 if q == '*' else G.attrs.ids[q] for q in st)
-        if not s['elem'] or conv_e(r[0]) != s['ch'] or r[1] != s['text'] or conv_a(r[2]) != s['at'] or conv_a(r[3]) != s['must']:
+        if conv_e(r[0]) != s['ch'] or r[1] != s['text'] or conv_a(r[2]) != s['at'] or conv_a(r[3]) != s['must']:
             bad.append(V.EN[i])
     chk.obligation('Lean RELAX-NG semantics agrees with an independent Python reading of the .rng files on every element',
                    not bad, '%d elements compared; differing: %s' % (V.n, ', '.join(bad[:8]) or 'none'), kind='cross-check')
@@ -750,6 +759,87 @@ class Sweep(object):
                 chk.fail('ctor-keyword:%s@%s' % (V.EN[e], KN[kws[0]]), {'op': 'Element(**kw)', 'element': V.EN[e], 'keywords': [KN[k] for k in kws], 'check_grammar': chk_on},
                          'constructor: %s; setAttribute refuses %s' % (o, 'nothing' if first_refused is None else repr(KN[first_refused])))
 
+    # ---- the islands: parents that have no table row at all
+    def islands(self):
+        """Elements that no schema declaration names (MathML content, XForms instance data, foreign namespaces) occur in the
+        schema's <anyName/> islands, whose content is again `any element` (and text).  They have no table row; they are made
+        with Element(qname=(namespace, name)).  Schema-side decision (Lean: schema <id outside the tables>; cross-checked with
+        the Python reading): any child permitted, text permitted."""
+        chk, V, drv, Element = self.chk, self.V, self.drv, self.Element
+        IllegalChild, IllegalText = self.element.IllegalChild, self.element.IllegalText
+        Q = V.G.elems.items
+        FOREIGN = 900000                         # an id outside the tables: the Lean side judges it by the <anyName/> declarations
+        a = drv.ask('schema %d' % FOREIGN).split()
+        lean = {'elem': a[1] == '1', 'text': a[2] == '1', 'ch': set(parse_ids(a[3]))}
+        py = V.so.element(('urn:x-c06:no-such-namespace', 'x'))
+        agree = py is not None and (('*' in py[0]) == (-1 in lean['ch'])) and py[1] == lean['text'] and not lean['elem']
+        chk.obligation('island semantics: Lean and the Python reading agree on what an undeclared element may contain', agree,
+                       'Lean: any child %s, text %s; Python: %s' % (-1 in lean['ch'], lean['text'], None if py is None else ('*' in py[0], py[1])), kind='cross-check')
+        if -1 not in lean['ch']:
+            chk.notes.append('the schemas have no <anyName/> island that permits any child: island sweep skipped'); return
+        uri = {}
+        for rel, root, nsmap in V.G.rng_docs:
+            for pfx, u in nsmap.items():
+                uri.setdefault(pfx, u)
+        foreign = [q for q in [(uri.get('math'), 'mrow'), (uri.get('math'), 'mi'), (uri.get('math'), 'msup'), (uri.get('xforms'), 'submission'),
+                               (uri.get('xforms'), 'data'), ('urn:x-c06:foreign', 'item'), ('', 'unqualified')] if q[0] is not None and q not in V.G.elems.ids]
+        name = lambda q: ('%s:%s' % ([p for p, u in uri.items() if u == q[0]][0], q[1])) if q[0] in uri.values() else '{%s}%s' % q
+        children = [(V.EN[c], Q[c], c) for c in self.live] + [(name(q), q, FOREIGN + 1 + i) for i, q in enumerate(foreign)]
+        for fi, fq in enumerate(foreign):
+            pid = FOREIGN + 1 + fi
+            model = drv.batch('add 1 %d %d' % (pid, cid) for _, _, cid in children)
+            for (cn, cq, cid), m in zip(children, model):
+                obs = []
+                for step in range(3):            # checked, unchecked, checked again - fresh elements
+                    try:
+                        Element(qname=fq, check_grammar=False).addElement(Element(qname=cq, check_grammar=False), check_grammar=(step != 1)); obs.append('ok')
+                    except IllegalChild:
+                        obs.append('err IllegalChild')
+                    except Exception as ex:
+                        obs.append('err ' + classify(ex))
+                chk.corr(); chk.count('island_addElement_calls', 3)
+                if obs[0] != m or obs[2] != m:
+                    chk.corr_diff({'op': 'addElement', 'parent': name(fq), 'child': cn}, obs, m, 'addElement on a parent without table row (foreign element)')
+                if obs[0] != 'ok' or obs[2] != 'ok' or obs[1] != 'ok':
+                    if self.cap('island'):
+                        chk.fail('children:%s>%s' % (name(fq), cn), {'op': 'addElement', 'parent_qname': list(fq), 'child_qname': list(cq), 'parent': name(fq), 'child': cn},
+                                 'addElement(%s) on <%s> (an element no declaration names; the schema\'s <anyName/> islands permit any child): %s' % (cn, name(fq), obs))
+            chk.case(('island', fq), nontrivial=True, sample={'parent': name(fq), 'children_tried': len(children)})
+            # text in an island element
+            try:
+                Element(qname=fq, check_grammar=False).addText(u'x'); o = 'ok'
+            except IllegalText:
+                o = 'err IllegalText'
+            except Exception as ex:
+                o = 'err ' + classify(ex)
+            m = drv.ask('text 1 %d' % pid)
+            chk.corr()
+            if o != m:
+                chk.corr_diff({'op': 'addText', 'element': name(fq)}, o, m, 'addText on an element without table rows')
+            if (o == 'ok') != lean['text']:
+                chk.fail('text:*', {'op': 'addText', 'element_qname': list(fq), 'element': name(fq)},
+                         'addText on <%s> (an element no declaration names): %s; the <anyName/> islands permit text' % (name(fq), o))
+        # a foreign child under every parent of the tables: permitted exactly where the schema says `any element`
+        fq = foreign[-2] if len(foreign) > 1 else foreign[0]
+        model = drv.batch('add 1 %d %d' % (p, FOREIGN + 50) for p in self.live)
+        for p, m in zip(self.live, model):
+            try:
+                Element(qname=Q[p], check_grammar=False).addElement(Element(qname=fq, check_grammar=False)); o = 'ok'
+            except IllegalChild:
+                o = 'err IllegalChild'
+            except Exception as ex:
+                o = 'err ' + classify(ex)
+            chk.corr(); chk.count('island_addElement_calls')
+            if o != m:
+                chk.corr_diff({'op': 'addElement', 'parent': V.EN[p], 'child': name(fq)}, o, m, 'a foreign child')
+            want = -1 in V.S[p]['ch']
+            if (o == 'ok') != want:
+                en = V.EN[p]
+                if not (excepted(V, 'children', en, '*') or excepted(V, 'children', en, name(fq))) and self.cap('island'):
+                    sig = 'children:%s>*' % en if any(k['sig'] == 'children:%s>*' % en for k in chk.known) else 'children:%s>%s' % (en, name(fq))
+                    chk.fail(sig, {'op': 'addElement', 'parent': en, 'child_qname': list(fq), 'child': name(fq)},
+                             'addElement(<%s>, a foreign element) on <%s>: %s; the schema %s any element there' % (name(fq), en, o, 'permits' if want else 'does not permit'))
+
     # ---- the same decisions after a load() has run in this process
     def after_load(self):
         """load() attaches every node with check_grammar=False.  Afterwards every checked decision must be what it was."""
@@ -1060,7 +1150,7 @@ def run(chk, replay=None):
     sw.constructible()
     import traceback
     for name, phase in (('children', sw.children), ('text', sw.text), ('attrs', sw.attributes), ('ctor', sw.constructors),
-                        ('ctorkw', sw.constructor_keywords), ('factories', sw.factories), ('after_load', sw.after_load)):
+                        ('ctorkw', sw.constructor_keywords), ('factories', sw.factories), ('islands', sw.islands), ('after_load', sw.after_load)):
         t = time.time()
         try:
             phase()
